@@ -216,15 +216,16 @@ inductive Tree (α L : Type) where
   | leaf : L → Tree α L
   | node : Nat → α → Tree α L → Tree α L → Tree α L
 
-/-- `make_prediction`; `none` = out-of-bounds feature index (panic) -/
-def treeDescend {α L : Type} [LT α] [DecidableLT α] : Tree α L → List α → Option L
+/-- `make_prediction` (`value <= split_value` goes left, as fitting routes it — repo fix
+3be3d06); `none` = out-of-bounds feature index (panic) -/
+def treeDescend {α L : Type} [LE α] [DecidableLE α] : Tree α L → List α → Option L
   | .leaf l, _ => some l
   | .node f thr lo hi, x =>
     match x[f]? with
     | none => none
-    | some v => if v < thr then treeDescend lo x else treeDescend hi x
+    | some v => if v ≤ thr then treeDescend lo x else treeDescend hi x
 
-def treeBatch {α L : Type} [LT α] [DecidableLT α] (t : Tree α L) (rows : List (List α)) : Option (List L) :=
+def treeBatch {α L : Type} [LE α] [DecidableLE α] (t : Tree α L) (rows : List (List α)) : Option (List L) :=
   rows.mapM (treeDescend t)
 
 /-! ## isotonic regression: piecewise-linear interpolation of one value -/
